@@ -19,12 +19,8 @@ import time
 import traceback
 
 
-class RunTimeout(BaseException):
-    pass
-
-
-def _alarm(signum, frame):
-    raise RunTimeout()
+from .runcap import RunTimeout
+from . import runcap
 
 
 def execute_one(check, seed, run, engine, tier, entry=None):
@@ -38,7 +34,7 @@ def worker_main(k, args, runs, entry, beat=None):
     from .util import dumps
     path = os.path.join(args.out, f"{args.engine}.{k}.jsonl")
     faulthandler.enable(open(os.path.join(args.out, f"{args.engine}.{k}.fault"), "w"))
-    signal.signal(signal.SIGALRM, _alarm)
+    runcap.install()
     from . import checks_registry as R
     R.worker_init(args.check)
     t_end = args.t0 + args.budget
@@ -56,27 +52,43 @@ def worker_main(k, args, runs, entry, beat=None):
             n_done += 1
             if beat is not None:
                 beat[2 * k], beat[2 * k + 1] = float(run), t + (cap - args.run_cap)
+            if args.engine != "twin":
+                def _leave(run=run, t=t):
+                    f.write(dumps(dict(run=run, inconclusive="timeout", wall=time.time() - t)) + "\n")
+                    f.flush()
+                    if beat is not None:
+                        beat[2 * k + 1] = 0.0
+                    os._exit(3)
+                runcap.state["on_hit"] = _leave
             try:
-                signal.alarm(int(cap))
+                runcap.arm(int(cap))
                 # a worker may own several catalogue entries: it alternates between them
                 # (a pure function of the run index: replays and respawned workers agree)
                 ent = entry[((run - args.first) // max(1, args.workers)) % len(entry)] \
                     if isinstance(entry, list) else entry
                 plan, rec = execute_one(args.check, args.seed, run, args.engine, args.tier, ent)
-                signal.alarm(0)
+                runcap.disarm()
+                if runcap.state["hit"]:
+                    # the cap was hit but the exception was absorbed on the way (see runcap):
+                    # whatever the run recorded after that is not a verdict
+                    raise RunTimeout()
                 rec["run"] = run
                 rec["forced_entry"] = plan.get("forced_entry")
                 for v in rec.get("violations", []):
                     v["run"] = run
                 out = rec
             except RunTimeout:
+                runcap.disarm()
                 out = dict(run=run, inconclusive="timeout", wall=time.time() - t)
             except Exception as e:   # an exception escaping run_plan is a harness error
-                signal.alarm(0)
-                out = dict(run=run, harness_error=repr(e), tb=traceback.format_exc()[-2000:],
-                           wall=time.time() - t)
+                runcap.disarm()
+                if runcap.state["hit"]:
+                    out = dict(run=run, inconclusive="timeout", wall=time.time() - t)
+                else:
+                    out = dict(run=run, harness_error=repr(e), tb=traceback.format_exc()[-2000:],
+                               wall=time.time() - t)
             finally:
-                signal.alarm(0)
+                runcap.disarm()
             f.write(dumps(out) + "\n")
             f.flush()
         f.write(dumps(dict(DONE=k)) + "\n")
